@@ -37,6 +37,12 @@ CONTENT_TOL = 0.12                  # measured vs model content position (output
 SEL_F11 = "resize_total_factor_ge_3"
 SEL_F11B = "resize_rounded_size_far_edge"
 SEL_F04K = "kornia_affine_align_corners_nonsquare"
+SEL_F04P = "kornia_augmenter_datapipe_align_corners_nonsquare"
+OP_NAMES = {"RandomAffine": "affine", "RandomErasing": "erase", "RandomMixUpV2": "mixup",
+            "RandomUniformNoise": "uniform", "RandomGaussianNoise": "gaussian", "RandomContrast": "contrast",
+            "RandomBrightness": "brightness"}
+OP_COQ = {"erase": "OpErase", "mixup": "OpMixup", "uniform": "OpUniformNoise", "gaussian": "OpGaussianNoise",
+          "contrast": "OpContrast", "brightness": "OpBrightness"}
 
 PRIMES = [17, 19, 23, 29, 31, 37, 41, 43, 47, 53, 59, 61, 67, 71, 73, 79, 83, 89, 97, 101, 103, 107, 109,
           113, 127, 131, 137, 139, 149, 151, 157, 163, 167, 173, 179, 181, 191, 193, 197, 199]
@@ -371,6 +377,8 @@ def gen_case(rng, kind, thorough):
                 if inst[0] is None:
                     inst[0] = (gen_coord(rng, W), gen_coord(rng, H))
             c["anchor"] = rng.choice([0, None])
+            c["chunks"] = rng.random() < 0.25              # also through the np_chunks (npz + PIL round trip) path
+            c["conv"] = rng.random() < 0.3                  # channel conversion: gray frames -> is_rgb, RGB frames -> grayscale
             c["aug"] = rng.choice([None, None, "geometric", "intensity"])
             if c["aug"] == "geometric":
                 c["aug_cfg"] = {"rotation": rng.choice([0.0, 15.0, 45.0, 180.0]),
@@ -386,6 +394,83 @@ def gen_case(rng, kind, thorough):
                 c["aug_cfg"] = {"uniform_noise_p": rng.choice([0.0, 1.0]), "gaussian_noise_p": rng.choice([0.0, 1.0]),
                                 "contrast_p": 1.0, "brightness": 0.2, "brightness_p": rng.choice([0.0, 1.0])}
             c["aug_seed"] = rng.randrange(1 << 30)
+    elif kind == "smdp":
+        # SizeMatcher DataPipe: pad-only, stateful maxima, raises when an image is larger
+        n = rng.randint(1, 3)
+        sizes = [(H, W)] + [gen_hw(rng) for _ in range(n - 1)]
+        t = rng.random()
+        if t < 0.5:                                         # everything fits
+            mh = rng.choice([None, max(a for a, _ in sizes) + rng.choice([0, 0, 5, 16])])
+            mw = rng.choice([None, max(b for _, b in sizes) + rng.choice([0, 0, 3, 32])])
+            if mh is None:
+                sizes = [(min(a, sizes[0][0]), b) for a, b in sizes]
+            if mw is None:
+                sizes = [(a, min(b, sizes[0][1])) for a, b in sizes]
+        else:
+            mh, mw = gen_max(rng, H), gen_max(rng, W)
+        c["sizes"], c["mh"], c["mw"] = [list(x) for x in sizes], mh, mw
+        c["pts"] = gen_pts(rng, sizes[0][0], sizes[0][1], 3)
+    elif kind == "cropper":
+        c["h"], c["w"] = rng.choice([(8, 8), (16, 16), (9, 11), (32, 24), (5, 7), (64, 64), (2, 2), (40, 17)])
+        c["n_inst"] = rng.randint(1, 3)
+        c["n_pad"] = rng.choice([0, 0, 1, 2])              # NaN-padded instances beyond num_instances
+        c["n_nodes"] = rng.randint(1, 3)
+        c["insts"], c["cents"] = [], []
+        for _ in range(c["n_inst"]):
+            if rng.random() < 0.4:
+                cx = rng.choice([F(rng.randrange(0, 33), 8), F(W - 1) - F(rng.randrange(0, 33), 8), F(-2), F(W + 1)])
+                cy = rng.choice([F(rng.randrange(0, 33), 8), F(H - 1) - F(rng.randrange(0, 33), 8), F(-1), F(H)])
+            else:
+                cx, cy = F(rng.randrange(0, 8 * W), 8), F(rng.randrange(0, 8 * H), 8)
+            if rng.random() < 0.4:
+                cx, cy = F(round(cx)), F(round(cy))
+            c["cents"].append((cx, cy))
+            inst = gen_near(rng, cx, cy, c["w"], c["h"], c["n_nodes"])
+            c["insts"].append([None if rng.random() < 0.15 else q for q in inst])
+    elif kind == "aug1":
+        # augmentation options ONE AT A TIME (and a few combinations), probabilities < 1, batches of 2,
+        # through the wrapper functions and through the KorniaAugmenter DataPipe
+        n_nodes = rng.randint(1, 4)
+        c["n_nodes"] = n_nodes
+        c["rank4"] = rng.random() < 0.6
+        c["batch"] = rng.choice([1, 1, 2])
+        c["via"] = rng.choice(["fn", "fn", "dp"])
+        n_i = rng.randint(1, 3) if c["rank4"] else 1
+        c["insts"] = [[[(F(rng.randrange(1, W - 1)), F(rng.randrange(1, H - 1))) if rng.random() > 0.12 else None
+                        for _ in range(n_nodes)] for _ in range(n_i)] for _ in range(c["batch"])]
+        ops = ["affine", "erase", "mixup", "uniform", "gaussian", "contrast", "brightness"]
+        t = rng.random()
+        if t < 0.7:
+            chosen = [rng.choice(ops)]
+        elif c["via"] == "dp":
+            chosen = rng.sample(ops, rng.randint(2, 7))
+        else:
+            chosen = rng.sample(ops[:3], rng.randint(2, 3)) if rng.random() < 0.5 else rng.sample(ops[3:], rng.randint(2, 4))
+        if c["via"] == "fn":
+            c["which"] = "geometric" if chosen[0] in ops[:3] else "intensity"
+        pv = lambda: rng.choice([1.0, 1.0, 0.5])
+        cfg = {}
+        if "affine" in chosen:
+            cfg.update({"rotation": rng.choice([0.0, 15.0, 90.0, 180.0]), "scale": rng.choice([(1.0, 1.0), (0.9, 1.1), (0.5, 1.5)]),
+                        "translate_width": rng.choice([0.0, 0.02, 0.25]), "translate_height": rng.choice([0.0, 0.02, 0.25]),
+                        "affine_p": pv()})
+        if "erase" in chosen:
+            cfg.update({"erase_p": pv(), "erase_scale_min": rng.choice([0.0001, 0.02]), "erase_scale_max": rng.choice([0.01, 0.1]),
+                        "erase_ratio_min": rng.choice([1, 0.5]), "erase_ratio_max": rng.choice([1, 2])})
+            cfg["erase_scale_max"] = max(cfg["erase_scale_max"], cfg["erase_scale_min"])
+        if "mixup" in chosen:
+            cfg.update({"mixup_p": pv(), "mixup_lambda": rng.choice([None, (0.2, 0.8)])})
+        if "uniform" in chosen:
+            cfg.update({"uniform_noise_p": pv(), "uniform_noise_min": 0.0, "uniform_noise_max": rng.choice([0.04, 0.1])})
+        if "gaussian" in chosen:
+            cfg.update({"gaussian_noise_p": pv(), "gaussian_noise_mean": 0.02, "gaussian_noise_std": rng.choice([0.004, 0.02])})
+        if "contrast" in chosen:
+            cfg.update({"contrast_p": pv(), "contrast_min": 0.5, "contrast_max": rng.choice([2.0, 1.5])})
+        if "brightness" in chosen:
+            cfg.update({"brightness_p": pv(), "brightness": rng.choice([0.0, 0.2, 0.3])})
+        c["ops"] = sorted(chosen)
+        c["aug_cfg"] = cfg
+        c["aug_seed"] = rng.randrange(1 << 30)
     elif kind == "cropsize":
         n_inst = rng.randint(0, 4)
         c["insts"] = [gen_pts(rng, H, W, rng.choice([2, 3]), p_nan=rng.choice([0, 0.3, 1.0])) for _ in range(n_inst)]
@@ -455,7 +540,28 @@ def term(c, extra=None):
         m = extra
         mq = "((%s, %s, %s), (%s, %s, %s))" % tuple(core.cq(v) for v in m)
         return f"CAug {mq} {c['n_nodes']}%nat {core.clist(c['insts'], lambda i: core.clist(i, ckp))}"
+    if k == "smdp":
+        return (f"CSizeMatchDP {coz(c['mh'])} {coz(c['mw'])} "
+                f"{core.clist(c['sizes'], lambda hw: '(%s, %s)' % (core.cz(hw[0]), core.cz(hw[1])))}")
+    if k == "cropper":
+        items = list(zip(c["cents"], c["insts"]))
+        return (f"CCropper {H} {W} {core.cz(c['h'])} {core.cz(c['w'])} {c['n_inst']}%nat "
+                + core.clist(items, lambda it: "((%s, %s), %s)" % (core.cq(it[0][0]), core.cq(it[0][1]),
+                                                                   core.clist(it[1], ckp))))
     raise ValueError(k)
+
+
+def cmat(m):
+    return "((%s, %s, %s), (%s, %s, %s))" % tuple(core.cq(v) for v in m)
+
+
+def stack_term(entries, n_nodes, insts):
+    """entries: [(op name, applied, matrix|None)] as read back from kornia"""
+    def ce(e):
+        name, applied, m = e
+        op = f"OpAffine {cmat(m)}" if name == "affine" else OP_COQ[name]
+        return f"({op}, {core.cbool(applied)})"
+    return f"CAugStack {core.clist(entries, ce)} {n_nodes}%nat {core.clist(insts, lambda i: core.clist(i, ckp))}"
 
 
 def centroid_of(c, inst):
@@ -479,29 +585,43 @@ class Impl:
         self.np, self.torch, self.OC = np, torch, OmegaConf
         self.rz, self.ic, self.au, self.cd = resizing, instance_cropping, augmentation, custom_datasets
         self.recorded = []
+        self.rec_ops = []
         orig = augmentation.AugmentationSequential
-        rec = self.recorded
+        rec, rec_ops = self.recorded, self.rec_ops
 
         class Recording(orig):                       # observe the sampled transform from outside
             def forward(self, *a, **k):
                 out = super().forward(*a, **k)
                 tm = self.transform_matrix
                 rec.append(None if tm is None else tm.detach().clone())
+                ops = []
+                for op in self.children():           # per operation: was it applied, its own matrix
+                    bp = getattr(op, "_params", {}).get("batch_prob")
+                    om = getattr(op, "_transform_matrix", None)
+                    ops.append((type(op).__name__, None if bp is None else [float(v) for v in bp.reshape(-1)],
+                                None if om is None else om.detach().clone()))
+                rec_ops.append(ops)
                 return out
         augmentation.AugmentationSequential = Recording
         self.fixed_f04k = self.detect_f04k()
+        self.fixed_f04p = self.detect_f04k(via_dp=True)
 
-    def detect_f04k(self):
+    def detect_f04k(self, via_dp=False):
         """Which content map does the geometric augmentation have: kornia's align_corners=False
         warp (D m D^-1, finding F04k) or the keypoint matrix itself (after the proposed fix)?
-        Decided by behaviour on a 25 x 158 ramp rotated by a large angle."""
+        Decided by behaviour on a 25 x 158 ramp rotated by a large angle.  via_dp: the same
+        question for the KorniaAugmenter DataPipe (finding F04p)."""
         torch, np = self.torch, self.np
         H, W = 25, 158
         torch.manual_seed(12345)
         self.recorded.clear()
-        oi, ok = self.au.apply_geometric_augmentation(ramp3(torch, H, W), torch.tensor([[[100.0, 12.0]]]),
-                                                      rotation=90.0, scale=(1.0, 1.0), translate_width=0.0,
-                                                      translate_height=0.0, affine_p=1.0)
+        kw = dict(rotation=90.0, scale=(1.0, 1.0), translate_width=0.0, translate_height=0.0, affine_p=1.0)
+        if via_dp:
+            ex = next(iter(self.au.KorniaAugmenter([{"image": ramp3(torch, H, W),
+                                                     "instances": torch.tensor([[[[100.0, 12.0]]]])}], **kw)))
+            oi = ex["image"]
+        else:
+            oi, ok = self.au.apply_geometric_augmentation(ramp3(torch, H, W), torch.tensor([[[100.0, 12.0]]]), **kw)
         m = mat_fracs(self.recorded[-1])
         fit = fit_content(np, *as_xym(np, oi), (H, W))
         if fit is None or abs(float(m[1])) < 0.3:
@@ -690,6 +810,25 @@ def run_resize(I, c, m, o):
     f11, f11b = py_selectors(c["H"], c["W"], None, None, s, c["pts"])
     registration(I, o, [im for im, _ in outs] if c["gray"] else outs[0][0], (c["H"], c["W"]), c["pts"], pts_out,
                  f11, f11b, model_affs(m), slack=ripple(c["H"], c["W"], None, None, s))
+    # the DataPipe version (Resizer): same model, same oracle
+    ik, pk = ("instance_image", "instance") if (c["H"] + c["W"]) % 2 else ("image", "instances")
+    dps = []
+    for im in imgs:
+        ex = {ik: im, pk: inst.clone(), "image": im}
+        dps.append(next(iter(I.rz.Resizer([ex], scale=float(s), image_key=ik, instances_key=pk,
+                                          keep_original=bool(c["H"] % 2)))))
+    for ex in dps:
+        if tuple(ex[ik].shape[-2:]) != want:
+            o.b(f"Resizer DataPipe output {tuple(ex[ik].shape[-2:])} is not (floor(H*s), floor(W*s)) = {want}")
+            return
+        if c["H"] % 2 and tuple(ex["original_image"].shape[-2:]) != (c["H"], c["W"]):
+            o.b("Resizer DataPipe: keep_original did not keep the original image")
+    dp_out = kp_list(dps[0][pk])
+    for k, (a, b) in enumerate(zip(dp_out, model_pts(m))):
+        if not kp_close(a, b):
+            o.d(f"Resizer DataPipe keypoint {k}: impl {a} model {b}")
+    registration(I, o, [ex[ik] for ex in dps] if c["gray"] else dps[0][ik], (c["H"], c["W"]), c["pts"], dp_out,
+                 f11, f11b, model_affs(m), label="Resizer DataPipe: ", slack=ripple(c["H"], c["W"], None, None, s))
 
 
 def run_pad(I, c, m, o):
@@ -713,6 +852,13 @@ def run_pad(I, c, m, o):
         o.b("stride padding changed or moved the original pixels (padding not only bottom/right)")
     if (out[..., H:, :] != 0).any() or (out[..., :, W:] != 0).any():
         o.b("stride padding is not zero")
+    ik = "instance_image" if (H + W) % 2 else "image"
+    ex = next(iter(I.rz.PadToStride([{ik: img.clone()}], max_stride=s, image_key=ik)))
+    dout = ex[ik]
+    if tuple(dout.shape) != tuple(out.shape):
+        o.b(f"PadToStride DataPipe output {tuple(dout.shape[-2:])} is not the least multiple of {s} >= {(H, W)}")
+    elif not torch.equal(dout[..., :H, :W], img) or (dout[..., H:, :] != 0).any() or (dout[..., :, W:] != 0).any():
+        o.b("PadToStride DataPipe changed or moved the original pixels / padding not zero at the bottom/right")
 
 
 def run_bbox(I, c, m, o):
@@ -734,8 +880,11 @@ def run_crop(I, c, m, o):
         if tuple(s_["instance_image"].shape[-2:]) != (c["h"], c["w"]):
             o.b(f"crop is {tuple(s_['instance_image'].shape[-2:])}, requested {(c['h'], c['w'])}")
             return
-    if m[0] != [c["h"], c["w"]]:
-        o.d(f"model crop size {m[0]}")
+    if m[0][:2] != [c["h"], c["w"]]:
+        o.d(f"model crop size {m[0][:2]}")
+    for s_ in outs[-1:]:
+        check_zero_fill(I, o, s_["instance_image"][0, -1].double().numpy(), s_["instance_bbox"][0][0].tolist(),
+                        (c["H"], c["W"]), m[0][2:10], "generate_crops: ")
     pts_out = kp_list(s0["instance"])
     for k, (a, b) in enumerate(zip(pts_out, model_pts(m))):
         if not kp_close(a, b):
@@ -744,6 +893,131 @@ def run_crop(I, c, m, o):
         o.d(f"centroid: impl {kp_list(s0['centroid'])[0]} model {model_pts(m, 1)[0]}")
     registration(I, o, [s_["instance_image"] for s_ in outs] if c["gray"] else s0["instance_image"],
                  (c["H"], c["W"]), c["pts"], pts_out, False, [False] * len(c["pts"]), model_affs(m))
+
+
+def check_zero_fill(I, o, M, corner, src_hw, mz, label):
+    """crops near / across the border: M = the mask channel of the crop of a ramp image (1 inside
+    the source image).  Oracle (from the bbox the code returned): output pixel (i, j) shows the
+    source position corner + (j, i); where that is >= 1 px outside the image the crop must be
+    zero (no wrap / replicate / reflect), where it is inside the image the mask must be one.
+    Correspondence: the fully valid rectangle equals Geometry.crop_valid."""
+    np = I.np
+    H, W = src_hw
+    h, w = M.shape
+    sx = corner[0] + np.arange(w)
+    sy = corner[1] + np.arange(h)
+    eps = 2e-3
+    in_x, in_y = (sx >= -eps) & (sx <= W - 1 + eps), (sy >= -eps) & (sy <= H - 1 + eps)
+    out_x, out_y = (sx <= -1 + eps) | (sx >= W - eps), (sy <= -1 + eps) | (sy >= H - eps)
+    inside = np.outer(in_y, in_x)
+    outside = out_y[:, None] | out_x[None, :]
+    if inside.any() and np.abs(M[inside] - 1).max() > 5e-3:
+        o.b(f"{label}crop pixels whose source position is inside the image do not show the image (mask "
+            f"{float(M[inside].min()):.3f})")
+    if outside.any() and np.abs(M[outside]).max() > 5e-3:
+        o.b(f"{label}crop pixels whose source position is outside the image are not zero (out-of-image region "
+            f"filled with image content: mask {float(np.abs(M[outside]).max()):.3f})")
+    if mz is not None:
+        lox, hix, zbx, zax, loy, hiy, zby, zay = mz
+        full = M > 0.999
+        exp = np.zeros_like(full)
+        if hiy >= loy and hix >= lox:
+            exp[loy:hiy + 1, lox:hix + 1] = True
+        # positions within float noise of the boundary are not compared
+        amb = np.outer(np.ones(h, bool), (np.abs(sx) < eps) | (np.abs(sx - (W - 1)) < eps)) | \
+            np.outer((np.abs(sy) < eps) | (np.abs(sy - (H - 1)) < eps), np.ones(w, bool))
+        if ((full != exp) & ~amb).any():
+            o.d(f"{label}valid rectangle of the crop differs from Geometry.crop_valid "
+                f"x[{lox},{hix}] y[{loy},{hiy}]")
+        expz = np.zeros_like(full)
+        expz[:max(0, zby + 1), :] = True
+        expz[max(0, zay):, :] = True
+        expz[:, :max(0, zbx + 1)] = True
+        expz[:, max(0, zax):] = True
+        if (expz & (np.abs(M) > 5e-3)).any():
+            o.d(f"{label}zero-fill region differs from Geometry.crop_zero_below/above")
+    o.stats["zero_fill_checked"] = o.stats.get("zero_fill_checked", 0) + 1
+
+
+def run_cropper(I, c, m, o):
+    """InstanceCropper DataPipe: one crop per (centroid, instance) for the first num_instances pairs"""
+    torch, np = I.torch, I.np
+    H, W, h, w = c["H"], c["W"], c["h"], c["w"]
+    n_inst, n_pad, n_nodes = c["n_inst"], c["n_pad"], c["n_nodes"]
+    flat = [p for inst in c["insts"] for p in inst] + [None] * (n_pad * n_nodes)
+    inst_t = I.pts_tensor(flat, (1, n_inst + n_pad, n_nodes, 2))
+    cen_t = I.pts_tensor(list(c["cents"]) + [None] * n_pad, (1, n_inst + n_pad, 2))
+    per_frame = []
+    for im in I.images(c):
+        ex = {"image": im, "instances": inst_t.clone(), "centroids": cen_t.clone(), "num_instances": n_inst,
+              "video_idx": 0}
+        got = []
+        for y in I.ic.InstanceCropper([ex], (h, w)):      # the DataPipe re-yields ONE dict: observe at yield time
+            got.append({k: (v.clone() if hasattr(v, "clone") else v) for k, v in y.items()})
+        per_frame.append(got)
+    if any(len(g) != n_inst for g in per_frame):
+        o.b(f"InstanceCropper yielded {[len(g) for g in per_frame]} crops for {n_inst} labelled instances")
+        return
+    if len(m[2]) != n_inst:
+        o.d(f"model yields {len(m[2])} crops, expected {n_inst}")
+        return
+    for j in range(n_inst):
+        frs = [g[j] for g in per_frame]
+        for y in frs:
+            if tuple(y["instance_image"].shape[-2:]) != (h, w):
+                o.b(f"InstanceCropper crop {j} is {tuple(y['instance_image'].shape[-2:])}, requested {(h, w)}")
+                return
+        mp = model_pts(m, j)
+        pts_out = kp_list(frs[0]["instance"])
+        for k, (a, b) in enumerate(zip(pts_out + kp_list(frs[0]["centroid"]), mp)):
+            if not kp_close(a, b):
+                o.d(f"InstanceCropper crop {j} keypoint {k}: impl {a} model {b}")
+        cx, cy = c["cents"][j]
+        x1, y1 = cx - F(w, 2) + F(1, 2), cy - F(h, 2) + F(1, 2)
+        A = ((F(1), -x1), (F(1), -y1))
+        check_zero_fill(I, o, frs[-1]["instance_image"][0, -1].double().numpy(), frs[-1]["instance_bbox"][0][0].tolist(),
+                        (H, W), None, f"InstanceCropper crop {j}: ")
+        registration(I, o, [y["instance_image"] for y in frs] if c["gray"] else frs[0]["instance_image"], (H, W),
+                     c["insts"][j], pts_out, False, [False] * n_nodes, A, label=f"InstanceCropper crop {j}: ")
+
+
+def run_smdp(I, c, m, o):
+    """SizeMatcher DataPipe: pads only (bottom/right), maxima fixed by the first image when None, raises when larger"""
+    torch, np = I.torch, I.np
+    sizes = [tuple(x) for x in c["sizes"]]
+    kp = I.pts_tensor(c["pts"], (1, 1, len(c["pts"]), 2))
+    g = torch.Generator().manual_seed(sizes[0][0] * 1000 + sizes[0][1])
+    imgs = [torch.rand((1, 1 if c["gray"] else 3, hh, ww), generator=g) + 0.5 for hh, ww in sizes]
+    exs = [{"image": im.clone(), "instances": kp.clone()} for im in imgs]
+    got, err = [], None
+    try:
+        for y in I.rz.SizeMatcher(exs, max_height=c["mh"], max_width=c["mw"]):
+            got.append(y)
+    except Exception as e:                                 # the DataPipe raises a bare Exception
+        err = str(e)
+    mh = sizes[0][0] if c["mh"] is None else c["mh"]
+    mw = sizes[0][1] if c["mw"] is None else c["mw"]
+    fits = [hh <= mh and ww <= mw for hh, ww in sizes]
+    n_ok = fits.index(False) if False in fits else len(sizes)
+    me, msz = bool(m[0][0]), [tuple(m[0][1 + 2 * i:3 + 2 * i]) for i in range((len(m[0]) - 1) // 2)]
+    if me != (err is not None) or msz != [tuple(y["image"].shape[-2:]) for y in got]:
+        o.d(f"SizeMatcher DataPipe yielded {[tuple(y['image'].shape[-2:]) for y in got]} raised={err is not None}; "
+            f"model {msz} raised={me}")
+    if err is not None and all(fits):
+        o.b(f"SizeMatcher DataPipe raised although every image fits ({mh},{mw}): {err[:80]}")
+    if len(got) != n_ok:
+        o.b(f"SizeMatcher DataPipe yielded {len(got)} examples, {n_ok} images fit before the first that is too large")
+        return
+    o.stats["smdp_raised"] = int(err is not None)
+    for y, im, (hh, ww) in zip(got, imgs, sizes):
+        out = y["image"]
+        if tuple(out.shape[-2:]) != (mh, mw):
+            o.b(f"SizeMatcher DataPipe output {tuple(out.shape[-2:])} is not (max_height, max_width) = {(mh, mw)}")
+            return
+        if not torch.equal(out[..., :hh, :ww], im) or (out[..., hh:, :] != 0).any() or (out[..., :, ww:] != 0).any():
+            o.b("SizeMatcher DataPipe changed or moved the original pixels (padding not only zero at the bottom/right)")
+        if not torch.equal(torch.nan_to_num(y["instances"], nan=-7.0), torch.nan_to_num(kp, nan=-7.0)):
+            o.b("SizeMatcher DataPipe only pads at the bottom/right but changed the keypoints")
 
 
 def run_full(I, c, m, o):
@@ -991,6 +1265,102 @@ def run_aug(I, c, o):
     return mq
 
 
+def run_aug1(I, c, o):
+    """augmentation options one at a time / in combination, probabilities < 1, batches of 2, through the wrapper
+    functions (via = fn) or the KorniaAugmenter DataPipe (via = dp).  The stack (which operations, which were
+    applied, the affine's own matrix) is read back from kornia per call and modelled by Geometry.stack_kp."""
+    torch, np = I.torch, I.np
+    H, W, B, n_nodes = c["H"], c["W"], c["batch"], c["n_nodes"]
+    n_inst = len(c["insts"][0])
+    shape = (B, n_inst, n_nodes, 2) if c["rank4"] else (B, n_nodes, 2)
+    flat_b = [[p for inst in b for p in inst] for b in c["insts"]]
+    inst = I.pts_tensor([p for fb in flat_b for p in fb], shape)
+    ops = c["ops"]
+    geo_only = all(op in ("affine", "erase", "mixup") for op in ops)
+    int_only = all(op in ("uniform", "gaussian", "contrast", "brightness") for op in ops)
+    C = 1 if (c["gray"] and not geo_only) else 3
+    if geo_only:
+        img = ramp3(torch, H, W).repeat(B, 1, 1, 1)
+    else:                                                   # dots at the (integer) keypoints on a dark image
+        img = torch.zeros((B, C, H, W))
+        for b, fb in enumerate(flat_b):
+            for p in fb:
+                if p is not None:
+                    img[b, :, int(p[1]), int(p[0])] = 0.9
+    torch.manual_seed(c["aug_seed"])
+    I.recorded.clear()
+    I.rec_ops.clear()
+    if c["via"] == "dp":
+        ex = next(iter(I.au.KorniaAugmenter([{"image": img.clone(), "instances": inst.clone()}], **c["aug_cfg"])))
+        oi, ok = ex["image"], ex["instances"]
+    else:
+        fn = I.au.apply_geometric_augmentation if c["which"] == "geometric" else I.au.apply_intensity_augmentation
+        oi, ok = fn(img.clone(), inst.clone(), **c["aug_cfg"])
+    if tuple(ok.shape) != shape:
+        o.b(f"augmentation returned keypoints of shape {tuple(ok.shape)}, given {shape}")
+        return
+    if tuple(oi.shape) != tuple(img.shape):
+        o.b(f"augmentation changed the image shape {tuple(img.shape)} -> {tuple(oi.shape)}")
+        return
+    if "affine" not in ops:
+        # erase / mixup / noise / contrast / brightness: keypoints returned exactly as given
+        if not torch.equal(torch.nan_to_num(ok, nan=-7.0), torch.nan_to_num(inst, nan=-7.0)):
+            o.b(f"augmentation without an affine operation ({'+'.join(ops)}) moved keypoints")
+    if not I.rec_ops:
+        o.d("could not read back the augmentation stack")
+        return
+    names = [OP_NAMES.get(n, n) for n, _, _ in I.rec_ops[-1]]
+    if sorted(names) != ops:
+        o.d(f"augmentation stack {names} but the options with p > 0 are {ops}")
+        return
+    c["_stack"] = []
+    for b in range(B):
+        entries = []
+        for (n, bp, om) in I.rec_ops[-1]:
+            name = OP_NAMES[n]
+            applied = bool(bp is not None and bp[min(b, len(bp) - 1)] > 0.5)
+            mq = None
+            if name == "affine":
+                if om is None:
+                    o.d("RandomAffine did not report its matrix")
+                    return
+                mq = mat_fracs(om[min(b, om.shape[0] - 1):][:1])
+            elif om is not None and not torch.allclose(om[min(b, om.shape[0] - 1)], torch.eye(3)):
+                o.d(f"kornia {n} reported a non-identity transform (oracle contract)")
+            entries.append((name, applied, mq))
+        pts_out = kp_list(ok[b])
+        item = {"entries": entries, "insts": c["insts"][b], "pts_out": pts_out, "located": None, "mq": None}
+        aff = [e for e in entries if e[0] == "affine"]
+        moved = bool(aff and aff[0][1])
+        if not moved and not all(kp_close(a, None if q is None else (float(q[0]), float(q[1])), atol=0, rtol=0)
+                                 for a, q in zip(pts_out, flat_b[b])):
+            o.b(f"no affine operation was applied (stack {names}) but keypoints of batch element {b} moved")
+        if geo_only:
+            mq = aff[0][2] if moved else [F(1), F(0), F(0), F(0), F(1), F(0)]
+            sel_name = SEL_F04P if c["via"] == "dp" else SEL_F04K
+            located = []
+            registration(I, o, oi[b:b + 1], (H, W), flat_b[b], pts_out, False, [False] * len(flat_b[b]), None, 1.0,
+                         f"augmentation ({c['via']}, {'+'.join(ops)}) batch element {b}: ",
+                         sel=lambda k, mq=mq, fb=flat_b[b]: sel_name if py_sel_f04k(H, W, mq, fb[k]) else None,
+                         located=located)
+            item["located"], item["mq"] = located, mq
+        elif int_only:
+            out = oi[b]
+            for k, p in enumerate(flat_b[b]):
+                if p is None:
+                    continue
+                x, y = int(p[0]), int(p[1])
+                v = out[:, y, x]
+                nb = out[:, y - 1:y + 2, x - 1:x + 2].clone()
+                dots = img[b, :, y - 1:y + 2, x - 1:x + 2] > 0.5
+                nb[dots] = -1.0
+                if not bool((v > nb.reshape(C, -1).max(dim=1).values).all()):
+                    o.b(f"intensity augmentation ({'+'.join(ops)}): the bright pixel at keypoint {k} ({x},{y}) is no "
+                        f"longer where the (unmoved) keypoint is")
+            o.stats["dot_checked"] = o.stats.get("dot_checked", 0) + 1
+        c["_stack"].append(item)
+
+
 # ---- datasets end to end ----------------------------------------------------
 def overcrop(c):
     return (math.isqrt(2 * c["ch"] * c["ch"]), math.isqrt(2 * c["cw"] * c["cw"]))
@@ -1001,7 +1371,7 @@ def ds_config(I, c, apply_aug):
     if c.get("aug") and apply_aug:
         aug = {c["aug"]: dict(c["aug_cfg"])}
     return I.OC.create({"user_instances_only": True,
-                        "preprocessing": {"is_rgb": not c["gray"]},
+                        "preprocessing": {"is_rgb": (not c["gray"]) != bool(c.get("conv"))},
                         "augmentation_config": aug})
 
 
@@ -1011,7 +1381,9 @@ def make_labels(I, c):
     ys, xs = np.meshgrid(np.arange(H), np.arange(W), indexing="ij")
     chans = [xs.astype(np.uint8), ys.astype(np.uint8), np.full((H, W), 255, np.uint8)]
     if c["gray"]:
-        frames = [ch[..., None] for ch in chans]
+        frames = [ch[..., None] for ch in chans]            # (conv: is_rgb -> convert_to_rgb repeats the channel)
+    elif c.get("conv"):
+        frames = [np.stack([ch] * 3, -1) for ch in chans]   # RGB frames with R=G=B, is_rgb False -> convert_to_grayscale
     else:
         frames = [np.stack(chans, -1)]
     video = FakeVideo((len(frames), H, W, frames[0].shape[-1]))
@@ -1019,12 +1391,23 @@ def make_labels(I, c):
     return FakeLabels(lfs, [video], len(c["pts"][0]))
 
 
-def build_ds(I, c, labels, apply_aug):
+def three_frames(c):
+    return bool(c["gray"] or c.get("conv"))
+
+
+def norm_img(c, im):
+    """RGB frames converted to grayscale come out multiplied by 0.2989 + 0.587 + 0.114 = 0.9999"""
+    return im / 0.9999 if (c.get("conv") and not c["gray"]) else im
+
+
+def build_ds(I, c, labels, apply_aug, chunks_path=None):
     cd, OC = I.cd, I.OC
     cfg = ds_config(I, c, apply_aug)
     head = OC.create({"sigma": 1.5, "output_stride": 2, "anchor_part": c.get("anchor")})
     kw = dict(labels=labels, data_config=cfg, max_stride=c["stride"], scale=float(c["s"]),
               apply_aug=apply_aug, max_hw=(c["mh"], c["mw"]))
+    if chunks_path is not None:
+        kw.update(np_chunks=True, np_chunks_path=str(chunks_path))
     if c["ds"] == "bottomup":
         return cd.BottomUpDataset(confmap_head_config=head, pafs_head_config=OC.create({"sigma": 4, "output_stride": 4}), **kw)
     if c["ds"] == "single":
@@ -1037,7 +1420,7 @@ def build_ds(I, c, labels, apply_aug):
 def ds_samples(I, c, ds, apply_aug):
     """one list of samples per logical item; each item has 1 (RGB) or 3 (gray) frames"""
     torch = I.torch
-    nfr = 3 if c["gray"] else 1
+    nfr = 3 if three_frames(c) else 1
     per_frame = len(ds) // nfr
     items = []
     for j in range(per_frame):
@@ -1070,7 +1453,7 @@ def run_dataset(I, c, ms, o):
     flat = [p for inst in c["pts"] for p in inst]
     fits = []
     for j, (frs, _) in enumerate(base):
-        imgs = [s_[key_img] for s_ in frs]
+        imgs = [norm_img(c, s_[key_img]) for s_ in frs]
         m = ms[j]
         if c["ds"] == "centered":
             pin = c["pts"][j]
@@ -1085,6 +1468,30 @@ def run_dataset(I, c, ms, o):
             pout = kp_list(frs[0][key_pts])[:len(pin)]
             fits.append(check_full_output(I, c, m, o, imgs, pout, pin, unit=1 / 255, label=f"{c['ds']}: "))
         c.setdefault("_base_pts", []).append(pout)
+    if c.get("chunks"):
+        # the np_chunks path (npz on disk, image through a PIL uint8 round trip): same sizes, same keypoints,
+        # same image up to the uint8 quantisation -> the registration of the in-memory path carries over
+        import shutil
+        cdir = core.scratch_dir("sv_c04_chunks_")
+        try:
+            dsc = build_ds(I, c, make_labels(I, c), False, chunks_path=cdir)
+            chk = ds_samples(I, c, dsc, False)
+            if len(chk) != len(base):
+                o.b(f"{c['ds']} np_chunks: {len(chk)} items, in-memory {len(base)}")
+            for j, ((cf, _), (bf, _)) in enumerate(zip(chk, base)):
+                for a, b in zip(cf, bf):
+                    if tuple(a[key_img].shape) != tuple(b[key_img].shape):
+                        o.b(f"{c['ds']} item {j} np_chunks: image {tuple(a[key_img].shape)} vs in-memory {tuple(b[key_img].shape)}")
+                    elif float((a[key_img] - b[key_img]).abs().max()) > 1.01 / 255:
+                        o.b(f"{c['ds']} item {j} np_chunks: image differs from the in-memory sample by "
+                            f"{float((a[key_img] - b[key_img]).abs().max()) * 255:.2f} grey levels (uint8 round trip allows 1)")
+                    ka, kb = a[key_pts].to(torch.float32), b[key_pts]
+                    if tuple(ka.shape) != tuple(kb.shape) or not torch.equal(torch.nan_to_num(ka, nan=-7.0),
+                                                                             torch.nan_to_num(kb, nan=-7.0)):
+                        o.b(f"{c['ds']} item {j} np_chunks: keypoints differ from the in-memory sample")
+            o.stats["chunks_checked"] = o.stats.get("chunks_checked", 0) + 1
+        finally:
+            shutil.rmtree(cdir, ignore_errors=True)
     if not c.get("aug"):
         return
     ds2 = build_ds(I, c, labels, True)
@@ -1103,7 +1510,7 @@ def run_dataset(I, c, ms, o):
             o.d(f"{c['ds']} item {j}: could not read back one transform per frame")
             continue
         # the step itself: content moved by T_img = fit_aug o fit_base^-1, keypoints by the code
-        X, Y, M = as_xym(np, [s_[key_img] for s_ in frs] if c["gray"] else frs[0][key_img])
+        X, Y, M = as_xym(np, [norm_img(c, s_[key_img]) for s_ in frs] if three_frames(c) else frs[0][key_img])
         fa = fit_content(np, X, Y, M, (c["H"], c["W"]), 1 / 255)
         fb = fits[j]
         if fa is None or fb is None:
@@ -1165,7 +1572,7 @@ def case_from_json(j):
 def model_terms(c):
     """Coq terms needed before the implementation runs (aug cases need the recorded matrix first)."""
     k = c["kind"]
-    if k in ("sizematch", "resize", "pad", "bbox", "crop", "full", "cropsize"):
+    if k in ("sizematch", "resize", "pad", "bbox", "crop", "full", "cropsize", "smdp", "cropper"):
         return [term(c)]
     if k == "centered":
         return [term(c, (c["pts"], c["pts"][0]))]
@@ -1179,7 +1586,8 @@ def model_terms(c):
 
 
 RUNNERS = {"sizematch": run_sizematch, "resize": run_resize, "pad": run_pad, "bbox": run_bbox, "crop": run_crop,
-           "full": run_full, "centered": run_centered, "cropsize": run_cropsize}
+           "full": run_full, "centered": run_centered, "cropsize": run_cropsize, "smdp": run_smdp,
+           "cropper": run_cropper}
 
 
 def run_case(I, c, ms):
@@ -1196,6 +1604,9 @@ def run_case(I, c, ms):
         elif k == "aug":
             c["_fixed"] = I.fixed_f04k
             c["_mat"] = run_aug(I, c, o)
+        elif k == "aug1":
+            c["_fixed"], c["_fixed_dp"] = I.fixed_f04k, I.fixed_f04p
+            run_aug1(I, c, o)
     except Exception as e:          # the property's domain never raises
         import traceback
         o.b(f"implementation raised {type(e).__name__}: {e} :: {traceback.format_exc()[-600:]}")
@@ -1212,6 +1623,14 @@ def second_pass_terms(c):
             mq = "((%s, %s, %s), (%s, %s, %s))" % tuple(core.cq(v) for v in c["_mat"])
             out.append(("aug_content", f"CAugContent {core.cbool(c['_fixed'])} {core.cz(c['H'])} {core.cz(c['W'])} "
                                        f"{mq} {core.clist(flat, ckp)}", c["_located"], None))
+    if c["kind"] == "aug1":
+        fixed = c.get("_fixed_dp") if c["via"] == "dp" else c.get("_fixed")
+        for item in c.get("_stack", []):
+            out.append(("stack", stack_term(item["entries"], c["n_nodes"], item["insts"]), item["pts_out"], None))
+            if item["located"] and fixed is not None:
+                flat = [p for inst in item["insts"] for p in inst]
+                out.append(("aug_content", f"CAugContent {core.cbool(fixed)} {core.cz(c['H'])} {core.cz(c['W'])} "
+                                           f"{cmat(item['mq'])} {core.clist(flat, ckp)}", item["located"], None))
     for (j, mat, pout) in c.get("_aug", []):
         base = c["_base_pts"][j]
         # centered: the augmentation acts on the over-crop, before the re-crop by t = (over - crop)/2
@@ -1227,9 +1646,10 @@ def second_pass_terms(c):
 def mix(thorough):
     if thorough:
         return {"sizematch": 2000, "resize": 2000, "pad": 400, "bbox": 300, "crop": 1400, "full": 2000, "centered": 1200,
-                "cropsize": 1000, "aug": 900, "ds_full": 700, "ds_centered": 450}
+                "cropsize": 1000, "aug": 900, "ds_full": 700, "ds_centered": 450, "smdp": 300, "cropper": 500,
+                "aug1": 900}
     return {"sizematch": 120, "resize": 120, "pad": 40, "bbox": 30, "crop": 90, "full": 110, "centered": 70,
-            "cropsize": 80, "aug": 60, "ds_full": 60, "ds_centered": 40}
+            "cropsize": 80, "aug": 60, "ds_full": 60, "ds_centered": 40, "smdp": 30, "cropper": 40, "aug1": 80}
 
 
 def load_corpus():
@@ -1266,7 +1686,8 @@ def evaluate(run, I, cases):
                 mc = (float(core.frac(cont[k][0])), float(core.frac(cont[k][1])))
                 if max(abs(a[0] - mc[0]), abs(a[1] - mc[1])) > CONTENT_TOL + u:
                     outcomes[i].d(f"augmentation content map: keypoint {k} content measured at ({a[0]:.3f},{a[1]:.3f}), "
-                                  f"model (fixed_F04k={cases[i]['_fixed']}) ({mc[0]:.3f},{mc[1]:.3f})")
+                                  f"model (align_corners fixed: fn={cases[i].get('_fixed')} dp={cases[i].get('_fixed_dp')}) "
+                                  f"({mc[0]:.3f},{mc[1]:.3f})")
             continue
         mp = [None if p is None else (core.frac(p[0]), core.frac(p[1])) for inst in r[2] for p in inst]
         if len(mp) != len(pout):
